@@ -13,6 +13,11 @@ try:
     fw.coq_make(targets, log, timeout=7200)
     for cfg in ("f64", "dec"):
         fw.build_harness(cfg, log, "dev", info)
+    # warm the cargo caches the configuration checks (C19) use
+    import os
+    for fl in ("std,serde,doc", "std,serde,fpdec,doc"):
+        fw.sh(["cargo", "check", "--offline", "--quiet", "--lib", "--no-default-features", "--features", fl], cwd=fw.REPO, timeout=1800,
+              env={"CARGO_TARGET_DIR": os.path.join(fw.BUILD, "target-c19"), "RUSTFLAGS": "-Awarnings"})
 except fw.Failure as f:
     print(f"setup failed ({f.kind}): {f.what}\n{f.detail[-3000:]}")
     sys.exit(1)
